@@ -85,7 +85,11 @@ func (sgi ShardGroupInfo) getShardsAndSeriesKeyForHintQuery(tagsGroup *influx.Po
 	sort.Sort(tagsGroup)
 	r := influx.Row{Name: mst.Name, Tags: *tagsGroup}
 	r.UnmarshalIndexKeys(nil)
-	r.UnmarshalShardKeyByTag(nil)
+	// the shard key is built from the measurement's shard-key tags, as on the write path (all tags when it has none);
+	// a condition that does not bind every shard-key tag cannot select a shard
+	if err := r.UnmarshalShardKeyByTag(ski.ShardKey); err != nil {
+		return sgi.genShardInfosByIndex(aliveShardIdxes), r.IndexKey
+	}
 	if len(ski.ShardKey) > 0 {
 		r.ShardKey = r.ShardKey[len(mst.Name)+1:]
 	}
